@@ -194,6 +194,7 @@ def cross_crs(run):
     small_overhang(run, tmp)
     elongated_reference(run, tmp)
     rotated_reference_other_crs(run, tmp)
+    shared_origin(run, tmp)
     for name, scrs, rcrs, (rx0, rytop) in pairs:
         rres, rw, rh = 10.0, 400, 400
         rt = Affine(rres, 0, rx0, 0, -rres, rytop)
@@ -445,3 +446,41 @@ def rotated_reference_other_crs(run, tmp):
                                         f'reference - hence beyond its footprint - was accepted' if got == 1 else
                                         f'source at the centre of the rotated reference was rejected' if got == 0 else f'construction raised {got}'),
                                  signature=dict(kind='rotated-cross-crs', accepted=got == 1))
+
+
+def shared_origin(run, tmp):
+    """
+    Source and reference with the very same geo-transform (same CRS, upper-left corner and pixel size) and different sizes: the
+    source is covered iff it has no more rows AND no more columns than the reference.
+    """
+    import warnings
+    from homonim import RasterFuse, RasterCompare
+    from homonim.errors import ImageContentError
+    ref = rasters.Grid(8 * 7000, 8 * 2000, 16, 16, 30, 40)
+    rp = tmp / 'c16so_ref.tif'
+    rasters.write_tif(rp, ref)
+    k = 0
+    for (h, w) in ((20, 50), (39, 31), (50, 20), (41, 30), (40, 30), (20, 15), (40, 31), (1, 31), (40, 1)):
+        src = rasters.Grid(ref.x0, ref.ytop, ref.px, ref.py, w, h)
+        sp = tmp / 'c16so_src.tif'
+        rasters.write_tif(sp, src)
+        want = 1 if (h <= ref.h and w <= ref.w) else 0
+        for cls in (RasterFuse, RasterCompare):
+            k += 1
+            case = dict(i=890_000 + k, op='same geo-transform', src_shape=(h, w), ref_shape=(ref.h, ref.w), cls=cls.__name__)
+            try:
+                with warnings.catch_warnings():
+                    warnings.simplefilter('ignore')
+                    cls(str(sp), str(rp)) if k % 2 else cls(sp, rp)
+                got = 1
+            except ImageContentError:
+                got = 0
+            except Exception as ex:
+                got = f'other:{type(ex).__name__}:{str(ex)[:60]}'
+            run.evaluations += 1
+            run.hist['same geo-transform cases'] += 1
+            run.nontrivial.add(('same-origin', h, w, cls.__name__))
+            if got != want:
+                run.fail(case, (f'a {h} x {w} source on the origin of a {ref.h} x {ref.w} reference with the same pixel size was accepted' if got == 1
+                                else f'a {h} x {w} source contained in the {ref.h} x {ref.w} reference (same origin) was rejected' if got == 0
+                                else f'construction raised {got}'), signature=dict(kind='same-origin', accepted=got == 1))
